@@ -13,6 +13,7 @@ func RegisterCodec(cdc *codec.Codec) {
 	cdc.RegisterInterface((*exported.ModuleAccountI)(nil), nil)
 	cdc.RegisterInterface((*exported.SupplyI)(nil), nil)
 	cdc.RegisterConcrete(&ModuleAccount{}, "posmint/ModuleAccount", nil)
+	cdc.RegisterConcrete(&MultiSigAccount{}, "posmint/MultiSigAccount", nil)
 	cdc.RegisterConcrete(&Supply{}, "posmint/Supply", nil)
 }
 
